@@ -9,7 +9,7 @@ T = SPEC / "tracker"
 WHY_PROPS = {
     "count": {"C01"}, "distinct": {"C01"}, "fresh": {"C01"}, "echo": {"C01"}, "epoch": {"C01", "C03"}, "len": {"C01", "C03"},
     "foreign-scene": {"C04"}, "expired": {"C03"}, "gate": {"C02"}, "optimal": {"C02"}, "constraint": {"C20"},
-    "places": {"C03"}, "idle": {"C03"}, "wasted": {"C03"}, "stats": {"C03"}, "event": {"C03"},
+    "places": {"C03"}, "panic": {"C01", "C02", "C03", "C04", "C05", "C06", "C20"}, "idle": {"C03"}, "wasted": {"C03"}, "stats": {"C03"}, "event": {"C03"},
 }
 
 
